@@ -350,6 +350,10 @@ def _k_fpf(c) -> CaseInfo:
         # every pattern documents that the empty string is unparsable; a pattern of optional fields only can emit it
         return CaseInfo(False, "n/a:empty-text")
     need(p.format(v) == text, "determinism/format-twice", f"{lib_pattern!r}")
+    if cname == "" and tmpl is None:
+        # format(value, pattern) / value.__format__ is the same function of (pattern, culture, value): the harness pins
+        # the current culture to the invariant culture
+        need(format(v, lib_pattern) == text, f"determinism/__format__/{t}", f"{lib_pattern!r}: {format(v, lib_pattern)!r} vs {text!r}")
     p2 = build_pattern(t, lib_pattern, cname, v, tmpl)
     need(p2.format(v) == text, "determinism/fresh-pattern", f"{lib_pattern!r} [{cname}]")
     # oracle 1: exact recovery of the projection
